@@ -338,7 +338,11 @@ where
             }
             // TODO: maybe dynamic affection range
             let affected_range = this_range.start..(this_range.end + 1);
-            if input.token_change.overlaps(&affected_range) {
+            // The range of a node is relative to its enclosing reference.
+            // If tokens were inserted or removed in front of this node, inside the same reference,
+            // the old range is stale and the node cannot be reused as it is.
+            let moved = input.location_offset() - input.reference_pos != this.to_range().start;
+            if moved || input.token_change.overlaps(&affected_range) {
                 match inner_parser.parse(input) {
                     Ok(result) => Ok(result),
                     Err(nom::Err::Error(err)) => affected_error(err.input),
